@@ -1397,7 +1397,12 @@ class VM:
         def splice_fn(*args):
             length = len(arr._elements)
             start = relative_index(args[0], length, 0) if args else 0
-            delete_count = to_integer(args[1]) if len(args) > 1 else length - start
+            if not args:
+                delete_count = 0  # no start given: nothing is removed
+            elif len(args) == 1:
+                delete_count = length - start
+            else:
+                delete_count = to_integer(args[1])
             items = list(args[2:]) if len(args) > 2 else []
 
             delete_count = int(max(0, min(delete_count, length - start)))
